@@ -5,10 +5,11 @@ ROOT = os.path.dirname(os.path.dirname(os.path.abspath(__file__)))
 sys.path.insert(0, ROOT)
 from verifcfg import PROPS, NOT_APPLICABLE, PENDING_REASON
 props = [json.loads(l) for l in open(os.path.join(ROOT, 'properties.jsonl'))]
+claimed = set(open(os.path.join(ROOT, 'claimed.txt')).read().split())   # integrated and verified green by the lead
 checks, na = [], []
 for p in props:
     pid = p['id']
-    c = PROPS.get(pid)
+    c = PROPS.get(pid) if pid in claimed else None
     if c is None:
         na.append(dict(property_id=pid, reason=NOT_APPLICABLE.get(pid, PENDING_REASON)))
         continue
